@@ -730,11 +730,23 @@ func genC01Driven(seed uint64, tier string) *world.Scenario {
 	f := world.FanSpec{ID: "f0", Kind: "file", Curve: "c0"}
 	f.Plant = world.PlantSpec{NoRpm: true}
 	f.Driver = world.DriverSpec{NoEnable: true, InitPwm: r.Range(0, 255)}
-	switch r.Intn(4) {
+	if r.Bool(0.5) {
+		// a neverStop hwmon fan with configured limits: the real initialisation sequence (response delay 0)
+		// measures an always-spinning plant first, then the cycles are driven
+		lo := r.Range(1, 150)
+		f = world.FanSpec{ID: "f0", Kind: "hwmon", Curve: "c0", Chip: chip, Channel: 1, NeverStop: true, MinPwm: world.IntP(lo), MaxPwm: world.IntP(r.Range(lo, 255))}
+		f.Plant = world.PlantSpec{MaxRpm: 2000, TauMs: 50, InitRpm: 800, MinRpm: 400}
+		f.Driver = world.DriverSpec{InitMode: 2, InitPwm: r.Range(0, 255), AutoPwm: 100}
+		sc.FanResponseDelay = 0
+	}
+	switch r.Intn(5) {
 	case 0:
 		f.Algo = world.AlgoSpec{Kind: "direct", MaxChange: world.IntP(r.Range(1, 255))}
 	case 1:
 		f.Algo = world.AlgoSpec{Kind: ""}
+	case 2:
+		// extreme but finite gains
+		f.Algo = world.AlgoSpec{Kind: "pid", P: kernel.Pick(r, 1e308, -1e308, 1e300), I: kernel.Pick(r, 1e308, -1e308, 0.0), D: kernel.Pick(r, 0.0, 1e308, -1e308)}
 	default:
 		f.Algo = world.AlgoSpec{Kind: "pid", P: (r.Float()*4 - 2) * kernel.Pick(r, 1.0, 1e6, 1e-6), I: (r.Float()*2 - 1) * kernel.Pick(r, 1.0, 1e9), D: (r.Float() - 0.5) * kernel.Pick(r, 1.0, 1e-9, 1e9)}
 	}
@@ -766,6 +778,7 @@ func runC01Driven(t *testing.T, sc *world.Scenario) *check.Result {
 					res.Notes["init"] = err.Error()
 				}
 				n := int(sc.Params["cycles"])
+				hold := 0
 				for i := 0; i < n; i++ {
 					gap := kernel.Pick(r, 0, 0, 0, 1, 17, 1000, 1000000, 200000000, 2000000000)
 					if gap > 0 {
@@ -773,13 +786,22 @@ func runC01Driven(t *testing.T, sc *world.Scenario) *check.Result {
 					} else {
 						res.Probe("driven-cycle-with-zero-elapsed-time")
 					}
-					// absurd and ordinary sensor states (the linear curve reads the average, the PID curve the file)
-					v := kernel.Pick(r, absurdTemps...)
-					if r.Bool(0.5) {
-						v = r.Range(0, 100000)
+					// absurd and ordinary sensor states (the linear curve reads the average, the PID curve the file);
+					// sometimes the state is held for a burst of cycles, so that the error term does not change
+					// between two cycles at the same instant
+					if hold > 0 {
+						hold--
+					} else {
+						v := kernel.Pick(r, absurdTemps...)
+						if r.Bool(0.5) {
+							v = r.Range(0, 100000)
+						}
+						st.Sensors["s0"].SetMovingAvg(float64(v))
+						st.W.Sensors["s0"].Spec.Prog = constTemp(v)
+						if r.Bool(0.3) {
+							hold = r.Range(2, 8)
+						}
 					}
-					st.Sensors["s0"].SetMovingAvg(float64(v))
-					st.W.Sensors["s0"].Spec.Prog = constTemp(v)
 					if err := ctl.UpdateFanSpeed(); err != nil {
 						res.Probe("update-returned-error")
 					}
